@@ -358,8 +358,23 @@ func (c *Ctx) extractPeephole(fd *ast.FuncDecl, sw *ast.SwitchStmt) (*peephole, 
 						rw.Narrow = append(rw.Narrow, v.Args[0].String()+" != "+v.Args[1].String())
 						continue
 					}
+					if v.Op == "bin" && len(v.Args) == 2 && v.Name == "!=" && (isNegOf(v.Args[0], v.Args[1]) || isNegOf(v.Args[1], v.Args[0])) {
+						rw.Narrow = append(rw.Narrow, v.Args[0].String()+" != "+v.Args[1].String())
+						continue
+					}
 					okSide = false
 					break
+				}
+				// a predicate helper over an operand (hasNegative(in[n].A)): judged on what it
+				// evaluates to
+				if _, isCall := e.(*ast.CallExpr); isCall {
+					v := in.eval(st.Clone(), e)
+					if v.Op == "bin" && len(v.Args) == 2 && v.Name == "!=" &&
+						(v.Args[0].Op == "field" && v.Args[1].Op == "int" || v.Args[1].Op == "field" && v.Args[0].Op == "int" ||
+							isNegOf(v.Args[0], v.Args[1]) || isNegOf(v.Args[1], v.Args[0])) {
+						rw.Narrow = append(rw.Narrow, v.Args[0].String()+" != "+v.Args[1].String())
+						continue
+					}
 				}
 				be, isB := e.(*ast.BinaryExpr)
 				// an exclusion (operand != constant) only narrows when the rewrite applies; the
